@@ -58,6 +58,8 @@ def ensure(builds=('REL', 'SEC', 'DBG', 'UBS'), quiet=True):
         if os.path.exists(os.path.join(out, 'simrun-' + b)): continue
         jobs.append(['gcc', '-std=gnu11', '-I' + os.path.join(REPO, 'include'), '-I' + os.path.join(REPO, 'src'), '-fno-pie', '-g1', '-w'] + SEAMS + BUILDS[b] +
                     ['-c', os.path.join(REPO, 'src', 'static.c'), '-o', os.path.join(out, 'mi-%s.o' % b)])
+        jobs.append(['gcc', '-std=gnu11', '-I' + os.path.join(REPO, 'include'), '-I' + os.path.join(REPO, 'src'), '-fno-pie', '-g1', '-w'] + SEAMS + BUILDS[b] +
+                    ['-c', os.path.join(SIM, 'peek.c'), '-o', os.path.join(out, 'peek-%s.o' % b)])      # reads mimalloc's internal types: same flags as the code under test
         for s in SIM_SRCS_PER_BUILD:
             jobs.append(cxx + ['-DSIM_BUILD="%s"' % b, '-c', os.path.join(SIM, s), '-o', os.path.join(out, s.replace('.cc', '-%s.o' % b))])
     if not os.path.exists(os.path.join(out, 'simdrv')):
@@ -65,7 +67,7 @@ def ensure(builds=('REL', 'SEC', 'DBG', 'UBS'), quiet=True):
     with cf.ThreadPoolExecutor(16) as ex: list(ex.map(run, jobs))
     for b in builds:
         if os.path.exists(os.path.join(out, 'simrun-' + b)): continue
-        objs = [os.path.join(out, s.replace('.cc', '.o')) for s in SIM_SRCS_COMMON] + [os.path.join(out, s.replace('.cc', '-%s.o' % b)) for s in SIM_SRCS_PER_BUILD] + [os.path.join(out, 'mi-%s.o' % b)]
+        objs = [os.path.join(out, s.replace('.cc', '.o')) for s in SIM_SRCS_COMMON] + [os.path.join(out, s.replace('.cc', '-%s.o' % b)) for s in SIM_SRCS_PER_BUILD] + [os.path.join(out, 'mi-%s.o' % b), os.path.join(out, 'peek-%s.o' % b)]
         run(['g++', '-no-pie', '-o', os.path.join(out, 'simrun-' + b)] + objs + ['-lpthread'])
     return out
 
